@@ -289,13 +289,22 @@ def _signature(level, inv, seg):
 
 
 # ------------------------------------------------------------------------------------------ semaphore level
+def _race(ctx, level, out, what):
+    """A race report counts against the code only if one of the racing accesses is in the code under test (not in the harness)."""
+    blocks = re.findall(r"WARNING: DATA RACE(.*?)={10,}", out, re.S)
+    in_code = [b for b in blocks if re.search(r"/pkg/util/(sem/semaphore|limitlistener/limitlistener)\.go|golang\.org/x/sync", b.split("Goroutine")[0])]
+    if in_code:
+        ctx.violation({"kind": "race", "level": level}, what, in_code[0][-4000:])
+        return
+    ctx.inconclusive("C17 %s harness: the race detector reports a race inside the harness:\n%s" % (level, out[-3000:]))
+
+
 def _sem_tv(ctx, state):
     n = 40 if ctx.quick else 400
     tp = ctx.path("c17_sem_trace.ndjson")
     rc, out = ctx.go_test(PKG_SEM, "^TestVerifC17SemTrace$", env={"VERIF_OUT": tp, "VERIF_N": n}, tags=state["tags"], race=not ctx.quick, timeout=900)
     if "DATA RACE" in out:
-        ctx.violation({"kind": "race", "level": "sem"}, "data race reported in Semaphore under concurrent Acquire/Release/SetMaxCount", out[-4000:])
-        return
+        return _race(ctx, "sem", out, "data race reported in Semaphore under concurrent Acquire/Release/SetMaxCount")
     if rc != 0:
         ctx.inconclusive("C17 semaphore trace harness failed:\n" + out[-3000:])
     _validate(ctx, state, "sem", tp, "Semaphore under concurrent Acquire/Release/SetMaxCount")
@@ -392,8 +401,7 @@ def _ll_tv(ctx, state):
     rc, out = ctx.go_test(PKG_LL, "^TestVerifC17LLTrace$", env={"VERIF_OUT": tp, "VERIF_N": n, "VERIF_TCP": 0 if ctx.quick else 1},
                           tags=state["tags"], race=not ctx.quick, timeout=900)
     if "DATA RACE" in out:
-        ctx.violation({"kind": "race", "level": "ll"}, "data race reported in LimitListener under concurrent accept/close/resize", out[-4000:])
-        return
+        return _race(ctx, "ll", out, "data race reported in LimitListener under concurrent accept/close/resize")
     if rc != 0:
         ctx.inconclusive("C17 listener trace harness failed:\n" + out[-3000:])
     _validate(ctx, state, "ll", tp, "LimitListener under concurrent connects, closes and cap changes")
